@@ -2,7 +2,8 @@
 (* C16: one line per PMap call on the real code:
      n, pool ("none" or FixedPool), random (RandomOrder), gate (were invocations parked?),
      events = <<[ev |-> "begin" | "end" | "ret", i]>> in real-time order (begin/end of f on element index i, return of PMap),
-     out = the returned list, f(x) = 3*x + 1 on the list <<1..n>> (element i has value i), maxParked (gate runs), kind.
+     out = the returned list, f(x) = 3*x + 1 on the list <<1..n>> (element i has value i), maxParked (gate runs), kind;
+     fast > 0: a list of that length through a trivial f - fastout = the returned list, applied = number of calls of f.
    Judge: f applied exactly once to every element and to nothing else; never more than min(FixedPool, n) (n without a
    pool) invocations in flight; PMap returns after all applications finished; ordered mode returns Map(f, list),
    RandomOrder a permutation of it.                                                                              *)
@@ -18,6 +19,12 @@ RetPos(evs) == CHOOSE j \in DOMAIN evs : evs[j].ev = "ret"
 IsPermOf(out, n) == Len(out) = n /\ \A i \in 1..n : Cardinality({j \in DOMAIN out : out[j] = Fv(i)}) = 1
 Why(e) ==
   IF e.kind # "ok" THEN e.kind
+  ELSE IF e.fast > 0 THEN       \* a long list through a trivial f (no events): the whole result and the number of applications
+         IF e.applied # e.fast THEN "an element was not applied exactly once"
+         ELSE IF ~e.random /\ e.fastout # [i \in 1..e.fast |-> Fv(i)] THEN "ordered mode: result differs from Map(f, list)"
+         ELSE IF e.random /\ ~(Len(e.fastout) = e.fast /\ {e.fastout[j] : j \in DOMAIN e.fastout} = {Fv(i) : i \in 1..e.fast})
+                THEN "RandomOrder: result is not a permutation of Map(f, list)"
+         ELSE "ok"
   ELSE IF \E i \in 1..e.n : Count(e.events, "begin", i) # 1 \/ Count(e.events, "end", i) # 1 THEN "an element was not applied exactly once"
   ELSE IF \E j \in DOMAIN e.events : e.events[j].ev # "ret" /\ e.events[j].i \notin 1..e.n THEN "f applied to something else"
   ELSE IF \E k \in DOMAIN e.events : InFlight(e.events, k) > Bound(e) THEN "more than min(FixedPool, n) invocations at a time"
